@@ -1,0 +1,50 @@
+//go:build verif
+// +build verif
+
+package masswallet
+
+// Thin exported wrappers for the import / removal engines of the verification harness (/verif).
+// No logic of their own: the harness plays the follower's side of the suspend/resume hand-shake,
+// so it can run blocks and restarts between two steps of asyncImport / asyncRemove exactly where
+// the real follower could.
+
+import "github.com/massnetorg/mass-core/wire"
+
+// VerifAsyncRemove runs asyncRemove on the calling goroutine (blocks in suspend until the
+// hand-shake channels are served).
+func (w *WalletManager) VerifAsyncRemove(walletId string) error {
+	return w.ntfnsHandler.asyncRemove(walletId)
+}
+
+// VerifAsyncImport runs one asyncImport batch on the calling goroutine.
+func (w *WalletManager) VerifAsyncImport(walletId string) (bool, error) {
+	return w.ntfnsHandler.asyncImport(walletId)
+}
+
+// VerifHandshake returns the follower-side ends of the suspend / resume channels.
+func (w *WalletManager) VerifHandshake() (suspend <-chan struct{}, resume <-chan struct{}) {
+	return w.ntfnsHandler.sigSuspend, w.ntfnsHandler.sigResume
+}
+
+// VerifCloseQuit signals shutdown (what Stop does first).
+func (w *WalletManager) VerifCloseQuit() { close(w.ntfnsHandler.quit) }
+
+// VerifInitTaskChan runs the start-up re-queueing of unfinished imports / removals.
+func (w *WalletManager) VerifInitTaskChan() { w.ntfnsHandler.initTaskChan() }
+
+// VerifIsWorkerBusy exposes the gate in front of ImportWallet / RemoveWallet.
+func (w *WalletManager) VerifIsWorkerBusy() bool { return w.ntfnsHandler.IsWorkerBusy() }
+
+// VerifExpiredMempool returns the follower's volatile height -> confirmed-transaction map.
+func (w *WalletManager) VerifExpiredMempool() map[uint64][]wire.Hash {
+	h := w.ntfnsHandler
+	h.memMtx.Lock()
+	defer h.memMtx.Unlock()
+	ret := make(map[uint64][]wire.Hash, len(h.expiredMempool))
+	for height, m := range h.expiredMempool {
+		for k := range m {
+			ret[height] = append(ret[height], k)
+		}
+	}
+	return ret
+}
